@@ -21,7 +21,9 @@ var boundaryInts = []int64{math.MinInt64, math.MinInt64 + 1, -(1 << 53) - 1, -(1
 var scalarKinds = []reflect.Kind{reflect.String, reflect.Int, reflect.Int8, reflect.Int16, reflect.Int32, reflect.Int64,
 	reflect.Uint, reflect.Uint8, reflect.Uint16, reflect.Uint32, reflect.Uint64, reflect.Float32, reflect.Float64, reflect.Bool}
 
-var strAlphabet = []string{"a", "b", "Z", "0", "1", "9", "中", "文", "é", "😀", " ", "-", ".", ",", "/", "'", "\"", "%", "&", "=", "+", "?", "#", "\xff", "\x00", "\n", "@", "_", ":", "(", ")", "|", "~", "X", "x"}
+var strAlphabet = []string{"a", "b", "Z", "0", "1", "9", "中", "文", "é", "😀", " ", "-", ".", ",", "/", "'", "\"", "%", "&", "=", "+", "?", "#", "\xff", "\x00", "\n", "@", "_", ":", "(", ")", "|", "~", "X", "x",
+	// text that is itself a percent-escape (survives one decoding, changes under a second one)
+	"%41", "%25", "%2B", "%3D", "%e4%bd%a0"}
 
 func randString(r *rand.Rand, maxLen int) string { return randFrom(r, strAlphabet, 0, maxLen) }
 
@@ -126,7 +128,35 @@ func sliceNear(r *rand.Rand, around int64) interface{} {
 	if n < 0 || n > 30 {
 		n = int64(r.IntN(4))
 	}
-	switch r.IntN(3) {
+	switch r.IntN(7) {
+	case 3:
+		// bytes of a multi-byte text: length in bytes, not in runes
+		b := []byte(randFrom(r, []string{"中", "é", "a", "😀", "1"}, 0, 8))
+		if int64(len(b)) > n && n >= 0 {
+			b = b[:n]
+		}
+		for int64(len(b)) < n {
+			b = append(b, 0xe4)
+		}
+		return b
+	case 4:
+		s := make([]int8, n)
+		for i := range s {
+			s[i] = int8(r.IntN(7) - 3)
+		}
+		return s
+	case 5:
+		s := make([]float64, n)
+		for i := range s {
+			s[i] = float64(r.IntN(5)) / 2
+		}
+		return s
+	case 6:
+		s := make([]bool, n)
+		for i := range s {
+			s[i] = chance(r, 0.5)
+		}
+		return s
 	case 0:
 		s := make([]int, n)
 		for i := range s {
@@ -264,6 +294,12 @@ func oneOf(v interface{}) interface{} {
 		return &One[[]string]{x}
 	case []uint8:
 		return &One[[]uint8]{x}
+	case []int8:
+		return &One[[]int8]{x}
+	case []float64:
+		return &One[[]float64]{x}
+	case []bool:
+		return &One[[]bool]{x}
 	case [3]int:
 		return &One[[3]int]{x}
 	}
